@@ -27,7 +27,7 @@ ROW = ("row",)
 INDEX_GETTERS = {"get_measurements": ("sset",), "get_field_keys": ("sset",), "get_tag_keys": ("sset",), "get_timestamps": L(TIME),
                  "get_field_values": L(UNK), "get_tag_values": D(("sset",))}
 # (name, Coq result type, kind of the result, decorators)
-GETTERS = [("__len__", "nat", INT, []), ("__iter__", "list point", L(POINT), []), ("get_measurements", "list str", L(STR), ["read_op"]), ("get_field_keys", "list str", L(STR), ["read_op"]),
+GETTERS = [("__len__", "nat", INT, []), ("__iter__", "list point", L(POINT), []), ("all", "list point", L(POINT), ["read_op"]), ("get_measurements", "list str", L(STR), ["read_op"]), ("get_field_keys", "list str", L(STR), ["read_op"]),
            ("get_tag_keys", "list str", L(STR), ["read_op"]), ("get_field_values", "list (option num)", L(UNK), ["read_op"]),
            ("get_timestamps", "list Z", L(TIME), ["read_op"]), ("get_tag_values", "list (str * list (option str))", D(L(UNK)), ["read_op"])]
 
@@ -71,6 +71,8 @@ class DbCompiler(PI.Compiler):
                     else:
                         args.append(self.ex(a, env)[0])
                 return f"(IndexGen.gen_{f.attr} (db_index self){''.join(' ' + x for x in args)})", INDEX_GETTERS[f.attr]
+            if isinstance(f, ast.Attribute) and f.attr == "read" and is_self_attr(f.value, "_storage") and not e.args and not e.keywords:
+                return "(db_rows self)", L(POINT)          # Storage.read(): every stored point, in storage order, as a new list
             if isinstance(f, ast.Name) and f.id == "len" and len(e.args) == 1 and not e.keywords:
                 if is_self_attr(e.args[0], "_index"):
                     return "(IndexGen.gen___len__ (db_index self))", INT
@@ -104,6 +106,22 @@ class DbCompiler(PI.Compiler):
                 if a[1] in (("sset",), ("eset",), UNK) and b[1] == ("sset",):
                     return f"(set_union_s {a[0]} {b[0]})", ("sset",)
         return super().ex(e, env)
+
+    def blk(self, stmts, env, final, in_loop=False):
+        stmts2 = PI.strip(stmts)
+        if stmts2:
+            st = stmts2[0]
+            if isinstance(st, ast.Assign) and len(st.targets) == 1 and isinstance(st.targets[0], ast.Name) and U(st.value) == "self._storage.read()":
+                n = st.targets[0].id
+                kinds = dict(env.kinds)
+                kinds[n] = L(POINT)
+                return f"let {n} := (db_rows self) in\n  {self.blk(stmts2[1:], env.copy(kinds=kinds, fresh=env.fresh | {n}), final, in_loop)}"
+            if isinstance(st, ast.Expr) and isinstance(st.value, ast.Call) and isinstance(st.value.func, ast.Attribute) and st.value.func.attr == "sort" \
+                    and isinstance(st.value.func.value, ast.Name) and st.value.func.value.id in env.fresh and env.kinds.get(st.value.func.value.id) == L(POINT) \
+                    and not st.value.args and [U(k) for k in st.value.keywords] == ["key=lambda x: (x is None, x.time)"]:
+                n = st.value.func.value.id
+                return f"let {n} := (sort_points {n}) in\n  {self.blk(stmts2[1:], env, final, in_loop)}"          # a stable sort by time (stored points carry one)
+        return super().blk(stmts, env, final, in_loop)
 
     def cond(self, e, env):
         if isinstance(e, ast.Compare) and len(e.ops) == 1 and isinstance(e.ops[0], (ast.In, ast.NotIn)):
@@ -187,7 +205,7 @@ class MeasCompiler(DbCompiler):
 HEADER = """(* GENERATED on every run by harness/py2coq_dbget.py from tinyflux/database.py (the getters of class TinyFlux) - do not edit.
    proofs/DbGetGenP.v proves them, with the read_op decorator, equal to the specification on the stored rows on both paths. *)
 From Coq Require Import List ZArith Bool Arith.
-From TF Require Import Base Query Index IndexSem DbSem.
+From TF Require Import Base Query Index DB IndexSem DbSem.
 From TF Require gen.IndexGen.
 Import ListNotations.
 
